@@ -46,6 +46,8 @@ def showEv : Ev → Option String
   | .wHdr t => some (if t then "H" else "h")
   | .wStartTLS t => some (if t then "S" else "s")
   | .wOther id t => some ((if t then "O" else "o") ++ toString id)
+  | .hello (.dom i) => some s!"Nd{i}"
+  | .hello .explicit => some "Nex"
   | _ => none
 
 def showErr : ErrClass → String
@@ -79,8 +81,10 @@ def parseSess (s : String) : Option (Nat × Kind) :=
 
 def handle (args : List String) : Option String :=
   match args with
-  | ["run", tee, st0, rr, rt, others, clear, prot, oracle] => do
+  | ["run", tee, explicit, domain, st0, rr, rt, others, clear, prot, oracle] => do
     let tee ← tee.toNat?
+    let explicit ← parseBool explicit
+    let domain ← domain.toNat?
     let st0 ← parseMask st0
     let rr ← parseBool rr
     let rt ← parseBool rt
@@ -90,7 +94,8 @@ def handle (args : List String) : Option String :=
     let oracle ← mapM? parseOracle (splitList oracle)
     let cfg : Cfg := { tee := tee != 0, rr := rr, rt := rt, others := others }
     let inp : Input := { clear := clear, prot := prot, oracle := oracle }
-    let r := run cfg st0 inp (4 * unitCount inp + 8)
+    let env : Env := { domain := domain, captured := if explicit then some .explicit else none }
+    let r := run cfg env st0 inp (4 * unitCount inp + 8)
     pure (joinList (r.1.filterMap showEv) ++ " " ++ showOutcome r.2)
   | ["sni", explicit, ss] => do
     let e ← parseBool explicit
